@@ -519,6 +519,42 @@ def w_interleave(part):
                                 {"kind": "interleave", "name": name, "extra": list(extra), "a": frames[i], "b": [getattr(fb, "__name__", "?"), list(args_b)], "preempt_before_line_event": k})
                         break
         acc.out.add(("interleave", name))
+    if part == 0:
+        # the pair decoders: a global decode suspended at every line while the decode of ANOTHER aircraft's pair (and of a
+        # pair on the surface with its receiver location) runs to completion
+        def air(lat, lon, oe, aa_):
+            e = C.encode(Fr(lat).limit_denominator(10 ** 6), Fr(lon).limit_denominator(10 ** 6), oe, False)
+            return F.es(C.me_airborne(11, 0xC38, oe, e["yz"], e["xz"]), aa_, 5, 17)
+
+        def sfc(lat, lon, oe, aa_):
+            e = C.encode(Fr(lat).limit_denominator(10 ** 6), Fr(lon).limit_denominator(10 ** 6), oe, True)
+            return F.es(C.me_surface(7, 12, 1, 40, oe, e["yz"], e["xz"]), aa_, 5, 17)
+        A1 = (air(52.25, 3.9, 0, 0x4840D6), air(52.26, 3.91, 1, 0x4840D6), 10, 11)
+        A2 = (air(-33.4, 151.2, 0, 0x7C1234), air(-33.41, 151.19, 1, 0x7C1234), 21, 20)
+        S1 = (sfc(52.31, 4.76, 0, 0x4840D6), sfc(52.311, 4.761, 1, 0x4840D6), 10, 11, 52.3, 4.7)
+        S2 = (sfc(-33.94, 151.17, 0, 0x7C1234), sfc(-33.941, 151.171, 1, 0x7C1234), 21, 20, -33.9, 151.2)
+        R1 = (A1[1], 52.0, 4.0)
+        R2 = (A2[0], -33.0, 151.0)
+        calls = [("adsb.position", pms.adsb.position, A1), ("adsb.position", pms.adsb.position, A2), ("adsb.position", pms.adsb.position, S1),
+                 ("adsb.position", pms.adsb.position, S2), ("adsb.airborne_position", pms.adsb.airborne_position, A1),
+                 ("adsb.airborne_position", pms.adsb.airborne_position, A2), ("adsb.surface_position", pms.adsb.surface_position, S1),
+                 ("adsb.surface_position", pms.adsb.surface_position, S2), ("adsb.position_with_ref", pms.adsb.position_with_ref, R1),
+                 ("adsb.position_with_ref", pms.adsb.position_with_ref, R2)]
+        isos = [repr(call(f, *a)) for _, f, a in calls]
+        for i, (na, fa, aa_) in enumerate(calls):
+            for j, (nb, fb, ab) in enumerate(calls):
+                if i == j or aa_[0][2:8] == ab[0][2:8] and na == nb:
+                    continue
+                res = interleave.explore(fa, aa_, fb, ab, src)
+                acc.cov["schedules"] += len(res["schedules"])
+                acc.c["infeasible_schedules"] += res["infeasible"]
+                for k, ra, rb in res["schedules"]:
+                    acc.n += 1
+                    if repr(ra) != isos[i] or repr(rb) != isos[j]:
+                        acc.bad("%s:answer_changes_when_another_call_runs_in_between" % na,
+                                {"kind": "interleave", "name": na, "pair": True, "a": list(aa_), "b": [nb, list(ab)], "preempt_before_line_event": k})
+                        break
+        acc.out.add(("interleave", "pair decoders"))
     return acc.res()
 
 
@@ -846,7 +882,7 @@ def replay(case):
         return [(s_, c_) for s_, c_ in w_hist2((case["first"], case["name"]))["viols"]]
     if case["kind"] == "interleave":
         out = []
-        for part in range(8):
+        for part in ([0] if case.get("pair") else range(8)):
             out += [(s_, c_) for s_, c_ in w_interleave(part)["viols"] if c_.get("name") == case["name"]]
         return out
     if case["kind"] == "addr_indep":
